@@ -21,6 +21,8 @@ THEOREMS = ["Drand.Beacon.Stream." + t for t in [
     # with a store that ends a stream whose queue is full instead of waiting for it (reports/cb_fix_1.diff)
     "tie_stream_registration", "onPutR_is_events", "runR_is_run", "c11r_scan_exact", "c11_live_no_skip_or_ended", "c11_ended_is_final",
     "c11_resume_after_end",
+    # a stream handler that deregisters only its own registration (reports/cb_fix_2.diff)
+    "tie_own_remover", "c11_own_end_keeps_others", "c11_detach_repaired",
 ]] + ["Drand.Chain.Callback." + t for t in [
     "tie_callback_variant", "c11_dispatch_reaches_or_ends", "c11_never_dropped", "c11_closed_is_last", "c11_table_frozen_during_put"]]
 TRUSTED = ["Lean 4 kernel; axioms per theorem under coverage.axioms",
